@@ -31,7 +31,7 @@ impl Prop for C02 {
 
     fn profiles(tier: Tier) -> Vec<Profile> {
         match tier {
-            Tier::Quick => vec![prof("pad", 40_000), prof("pad_light", 10_000), prof("zero_budget", 20_000)],
+            Tier::Quick => vec![prof("pad", 120_000), prof("pad_light", 30_000), prof("zero_budget", 60_000)],
             Tier::Thorough => vec![prof("pad", 1_500_000), prof("pad_light", 300_000), prof("zero_budget", 700_000)],
         }
     }
